@@ -7,6 +7,7 @@
 #include <stdint.h>
 #include <stdarg.h>
 #include <string.h>
+#include <stdlib.h>
 
 #ifndef FRGV_NATIVE
 /* ---- verification build ------------------------------------------------------------ */
@@ -38,6 +39,14 @@ extern void frgv_native_assert_fail(const char *msg);
 #  define FRGV_MISSING_RETURN(fn) frgv_native_assert_fail("missing return in " fn)
 #  define FRGV_ASM() do { } while(0)
 #  define FRGV_PAUSE() do { } while(0)
+#endif
+
+/* Storage of a class-typed local before its constructor runs. With FRGV_ZERO_RECORD_LOCALS it is zero, so
+ * that in-band ghost state (frgv::tracked::live) reads "no object here"; otherwise it is left indeterminate. */
+#ifdef FRGV_ZERO_RECORD_LOCALS
+#  define FRGV_RAW_STORAGE(x) memset(&(x), 0, sizeof(x))
+#else
+#  define FRGV_RAW_STORAGE(x) ((void)0)
 #endif
 
 #define FRGV_FNPTR_NONNULL(f) 1   /* the weak hooks frg_panic / frg_log are taken as present */
